@@ -77,6 +77,16 @@ def real_driver(name, arg):
     return Replay.get().driver(name, arg)
 
 
+def fresh_replay():
+    """drop the replay interpreter: the next real call starts a new one (no state from earlier replays)"""
+    if Replay._inst is not None:
+        try:
+            Replay._inst.p.kill()
+        except Exception:       # noqa
+            pass
+        Replay._inst = None
+
+
 def fresh_driver(name, arg):
     """run a driver in a NEW replay interpreter (for call sequences: no state from earlier replays may be present)"""
     if Replay._inst is not None:
@@ -356,6 +366,12 @@ class Item:
 
     def __init__(self, pid, name, params, tier, seed, findings):
         self.pid, self.name, self.params, self.tier, self.seed = pid, name, params, tier, seed
+        # "<item>@after:F1+F2": the same work item in history mode (see decide): every decide() of the item first runs
+        # the same call on an earlier frame that differs in the named fields (and in letter case)
+        self.full, self.after, self.hist_frame, self.hist_fr0 = name, None, None, None
+        if "@after:" in name:
+            self.name, fields = name.split("@after:")
+            self.after = [x for x in fields.split("+") if x]
         self.findings = [f for f in findings if f["property"] == pid and f.get("status") == "known"
                          and fnmatch.fnmatch(name, f.get("item", "*"))]
         self.assumptions = []
@@ -389,6 +405,8 @@ class Item:
         """register frames / fields / z3 variables as the harness inputs"""
         for t in things:
             if isinstance(t, Frame):
+                if self.hist_frame is None:
+                    self.hist_frame = t
                 self.inputs.update(t.vars())
                 self.assumptions += t.constraints()
             elif isinstance(t, Field):
@@ -657,7 +675,7 @@ class Item:
             self.known_hits.setdefault(finding["id"], {"what": finding["what"], "example": jsonable(inputs),
                                                        "detail": detail})
         else:
-            self.violations.append(Violation(self.name, label, inputs, detail, raw=self.model_inputs(model)))
+            self.violations.append(Violation(self.full, label, inputs, detail, raw=self.model_inputs(model)))
 
     def sat_witness(self, label, conds):
         """reachability twin: the conjunction must be satisfiable (guards against vacuity)"""
@@ -668,7 +686,7 @@ class Item:
 
     def result(self):
         return {
-            "item": self.name, "obligations": self.obligations, "discharged": self.discharged, "paths": self.paths,
+            "item": self.full, "obligations": self.obligations, "discharged": self.discharged, "paths": self.paths,
             "nontrivial": self.nontrivial, "validated": self.validated, "samples": self.samples,
             "violations": [v.asdict() for v in self.violations], "known_hits": self.known_hits,
             "solver_s": round(self.solver_s, 3), "queries": self.queries, "functions": sorted(self.functions),
@@ -705,6 +723,8 @@ def decide(item, label, fn_sym, call_real, conc_inputs, post, maxpaths=20000, cm
     post(kind, value[, ctx]) -> z3 Bool | bool.  It is evaluated on the symbolic outcome for the proof and again on
     the real, concrete outcome when a counterexample is replayed (kind 'exc' gets the exception *type name*).
     """
+    if item.after is not None:
+        return _decide_hist(item, label, fn_sym, call_real, conc_inputs, post, maxpaths)
     paths = item.explore(fn_sym, maxpaths=maxpaths)
     if not paths:
         raise HarnessError("%s/%s: no feasible path" % (item.name, label))
@@ -886,4 +906,53 @@ def decide_after(item, label, fr, fr0, prior, fn_sym, path, post, maxpaths=20000
             return (not c2), conc, "after %s, %s(%s) -> %r violates the property" % (
                 ", ".join("%s(%s)" % (pp.split(".")[-1], m0) for pp, _ in prior), path.split(".")[-1], m1, jsonable(real[:2])), real
         item.prove(label, p.pc, claim, replay, path=p)
+    return paths
+
+
+def _decide_hist(item, label, fn_sym, call_real, conc_inputs, post, maxpaths):
+    """decide() in history mode: the harness' own call is first made on an earlier frame fr0 (the item's first
+    declared frame with the fields item.after renewed; outcome discarded), then on the frame itself in the same run
+    from the pristine module state; the item's single-call claim must hold for the second outcome on every joint
+    path.  The harness' closures read fr.msg when called, so the earlier call is made by swapping fr.msg."""
+    fr = item.hist_frame
+    if fr is None:
+        raise HarnessError("%s: history mode needs a declared frame" % item.full)
+    if item.hist_fr0 is None:
+        item.hist_fr0 = sibling(fr, item.after)
+        item.declare(item.hist_fr0)
+    fr0 = item.hist_fr0
+
+    def both():
+        m = fr.msg
+        fr.msg = fr0.msg
+        try:
+            fn_sym()
+        except Exception:       # noqa  outcome of the earlier call: irrelevant
+            pass
+        finally:
+            fr.msg = m
+        return fn_sym()
+    paths = item.explore(both, maxpaths=maxpaths)
+    if not paths:
+        raise HarnessError("%s/%s: no feasible path" % (item.full, label))
+    for p in paths:
+        kind, val = p.kind, p.value
+        claim = _call_post(post, kind, type(val).__name__ if kind == "exc" else val, PostCtx(None, p))
+
+        def replay(model, _p=p):
+            conc = conc_inputs(model)
+            m1, m0 = fr.concrete(model), fr0.concrete(model)
+            conc0 = {k: (m0 if isinstance(v, str) and v == m1 else v) for k, v in conc.items()}
+            fresh_replay()
+            first = call_real(conc0)
+            real = call_real(conc)
+            fresh_replay()
+            c2 = _call_post(post, real[0], real[1], PostCtx(conc, _p, model))
+            if z3.is_expr(c2):
+                c2 = z3.is_true(ev_term(model, c2))
+            out = dict(conc)
+            out["earlier_call"] = conc0
+            return (not c2), out, "after the same call on %r (-> %r) the real outcome %r violates the property" % (
+                jsonable(conc0), jsonable(first[:2]), jsonable(real[:2])), real
+        item.prove(label + " (after an earlier call)", p.pc, claim, replay, path=p)
     return paths
